@@ -121,6 +121,25 @@ def handle : Handler
     -- measured end to end: the avo-compiled function and the private-storage version of the same
     -- virtual-register program returned the same results on every argument vector tried
     some (if outcome == "same" then "ok" else "bad-exec " ++ outcome)
+  | "accept-file" :: rest => do
+    -- a whole file through the entry point pass.Compile: `m (ok|err|unk)* => ok|err|panic`; per function what the
+    -- real allocation passes said on an identical copy of that one function
+    let (fl, rest) ← listOf (fun ts => match ts with
+      | "ok" :: ts => some (FnOutcome.ok, ts)
+      | "err" :: ts => some (FnOutcome.err, ts)
+      | "unk" :: ts => some (FnOutcome.unknown, ts)
+      | _ => none) rest
+    match rest with
+    | ["=>", "ok"] => some (match checkFile fl true with
+        | some j => s!"bad-file compile-reported-success-but-function-{j}-has-no-valid-assignment"
+        | none => "ok")
+    | ["=>", "err"] => some (match checkFile fl false with | some _ => "bad-file" | none => "ok")
+    | ["=>", "panic"] => some "bad-panic"
+    | _ => none
+  | ["accept-print", h] => do
+    -- the printed assembly of a successfully compiled file (hex of the bytes)
+    let bs ← unhex h
+    some (if noVirtualText (bs.map Char.ofNat) then "ok" else "bad-print virtual-register-in-printed-output")
   | "accept-enc" :: rest => do
     -- per instruction: k (orig bound role)*, role 1 = direct register operand, 0 = address register
     let (ins, _) ← listOf (listOf encTok) rest
@@ -132,6 +151,6 @@ def handle : Handler
       | none => "ok")
   | _ => none
 
-def handlers : List (String × Handler) := ["alloc", "accept-alloc", "accept-bind", "accept-enc", "accept-exec", "accept-regs", "accept-stage"].map (·, handle)
+def handlers : List (String × Handler) := ["alloc", "accept-alloc", "accept-bind", "accept-enc", "accept-exec", "accept-regs", "accept-stage", "accept-file", "accept-print"].map (·, handle)
 
 end Avo.Drv.C01
